@@ -366,6 +366,7 @@ func checkC15(c *Ctx) {
 	c.c15DropFailed(hubFns, fList)
 	c.c15QueueCapacity()
 	c.c15Wiring()
+	c.c15Identity(hubFns)
 
 	// ---- D2..D4 over listener implementers
 	impls := c.listenerImpls()
@@ -1630,4 +1631,92 @@ func positiveConst(p *eng.Prog, v ssa.Value) bool {
 		}
 	}
 	return true
+}
+
+// c15Identity: a message is identified by mailbox and id together (ids are unique per mailbox
+// only: the memory store numbers every mailbox from 1). Any map the hub keeps over its history
+// must be keyed by both; a map keyed by the id alone lets a younger message of another mailbox
+// take over the entry, after which the older one can no longer be found and deleted — it stays in
+// the history and is replayed to every monitor that joins later.
+func (c *Ctx) c15Identity(hubFns []*ssa.Function) {
+	r, p := c.R, c.P
+	rule := "C15/HISTORY/identity"
+	r.Rule(rule, "no map held in the hub's state is keyed by a message id alone (a string key that is the ID field of the event, or the id parameter of Delete): the key names the mailbox too")
+	hubT := p.Named("pkg/msghub", "Hub")
+	if hubT == nil {
+		return
+	}
+	isIDOnly := func(v ssa.Value) bool {
+		v = eng.StripConv(v)
+		if f := eng.LoadedField(v); f != nil && f.Name() == "ID" {
+			return true
+		}
+		if fl, ok := v.(*ssa.Field); ok {
+			if st, ok := fl.X.Type().Underlying().(*types.Struct); ok && st.Field(fl.Field).Name() == "ID" {
+				return true
+			}
+		}
+		var prm *ssa.Parameter
+		switch x := v.(type) {
+		case *ssa.Parameter:
+			prm = x
+		case *ssa.UnOp:
+			if cell := eng.CellOf(x.X); cell != nil {
+				if sts := eng.CellStores(cell); len(sts) == 1 {
+					prm, _ = sts[0].Val.(*ssa.Parameter)
+				}
+			}
+		}
+		return prm != nil && strings.EqualFold(prm.Name(), "id")
+	}
+	var all []*ssa.Function
+	seen := map[*ssa.Function]bool{}
+	for _, fn := range hubFns {
+		for _, g := range eng.WithAnons(fn) {
+			if !seen[g] {
+				seen[g] = true
+				all = append(all, g)
+			}
+		}
+	}
+	nBad := 0
+	ord := map[string]int{}
+	for _, fn := range all {
+		fn := fn
+		eng.EachInstr(fn, func(in ssa.Instruction) {
+			var m, key ssa.Value
+			switch x := in.(type) {
+			case *ssa.MapUpdate:
+				m, key = x.Map, x.Key
+			case *ssa.Lookup:
+				if _, isMap := x.X.Type().Underlying().(*types.Map); isMap {
+					m, key = x.X, x.Index
+				}
+			}
+			if m == nil {
+				return
+			}
+			f := eng.LoadedField(m)
+			if f == nil {
+				return
+			}
+			// a field of Hub
+			isHubField := false
+			if st, ok := hubT.Underlying().(*types.Struct); ok {
+				for i := 0; i < st.NumFields(); i++ {
+					if eng.SameField(st.Field(i), f) {
+						isHubField = true
+					}
+				}
+			}
+			if !isHubField || !isIDOnly(key) {
+				return
+			}
+			nBad++
+			r.Bad(rule, siteCons(p, in, ord, "map:"+f.Name()), p.InstrPos(in), "Hub.%s is keyed by a message id alone: ids are unique only within a mailbox, so two retained messages of different mailboxes share a key, the younger takes the entry over, and the older can no longer be found when it is deleted — it stays in the history and is replayed to monitors that join later", f.Name())
+		})
+	}
+	if nBad == 0 {
+		r.Ok(rule, "hub-state", "", "no hub map is keyed by a message id alone")
+	}
 }
